@@ -129,6 +129,32 @@ theorem mutual_exclusion_without_delete (n nk : Nat) (s : CMap.State)
     have := inv.excl m1 t1 b1
     rw [this] at b2; simp at b2
 
+/-- `sync.RWMutex` is modelled by its safety semantics only (`Lock` enabled iff no writer and no
+reader, `RLock` iff no writer). Go's writer preference ("a pending writer blocks new readers")
+only *disables* reader steps, i.e. it is a scheduling policy on this model; no clause of the
+property (mutual exclusion, no leak) depends on it, and they hold under every such policy: -/
+theorem mutual_exclusion_under_any_policy (policy : CMap.State → CMap.L → Bool) (n nk : Nat)
+    (s : CMap.State) (h : CMap.ReachNoDeleteUnder policy (CMap.init true n nk) s) :
+    ¬ CMap.Violation s := by
+  apply mutual_exclusion_without_delete n nk s
+  induction h with
+  | init => exact CMap.ReachNoDelete.init
+  | next _ _ hstep hsafe ih => exact CMap.ReachNoDelete.next ih hstep hsafe
+
+/-- … in particular under writer preference. -/
+theorem mutual_exclusion_with_writer_preference (n nk : Nat) (s : CMap.State)
+    (h : CMap.ReachNoDeleteUnder CMap.writerPreference (CMap.init true n nk) s) : ¬ CMap.Violation s :=
+  mutual_exclusion_under_any_policy _ n nk s h
+
+/-- non-vacuity: t0 holds shared, t1 (writer) waits, t2 (reader) has looked the item up: its
+`RLock` is enabled in the loose model and disabled by the writer-preference policy -/
+example : ∃ s, CMap.ReachNoDeleteUnder CMap.writerPreference (CMap.init true 3 1) s ∧
+    s.pcs 2 = .lkFound 0 .r 0 ∧ CMap.writerPreference s (.tau 2 0) = false ∧
+    (CMap.step s (.tau 2 0)).isSome = true :=
+  ⟨_, CMap.ReachNoDeleteUnder.init.of_runUnder (as := [.call 0 (.lock 0 .r), .tau 0 0, .tau 0 0, .tau 0 0,
+      .ret 0 none, .call 1 (.lock 0 .w), .tau 1 0, .call 2 (.lock 0 .r), .tau 2 0]) rfl,
+    by decide, by decide, by decide⟩
+
 /-- The schedule of the finding: G0 holds `Lock(0)`; G1 blocks in `Lock(0)` on the same mutex;
 G0 calls `DeleteUnlock(0)`; G1 acquires the deleted mutex; G2 calls `Lock(0)`, creates a fresh
 mutex and acquires it. -/
@@ -193,6 +219,34 @@ theorem context_mutual_exclusion (n : Nat) (s : Context.State)
   have a := key t1 h1
   have b := key t2 h2
   rw [a] at b; exact Option.some.inj b
+
+/-- The inner `sync.RWMutex` of `lock.Context` is never contended: whoever has the token finds it
+free (readers take the token too), so its writer preference can never come into play. -/
+theorem context_rwmutex_uncontended (n : Nat) (s : Context.State)
+    (h : Reach Context.lts (Context.init n) s) (t : Tid) (md : Context.Mode)
+    (hpc : s.pcs t = .haveTok md) : s.w = none ∧ s.rs = [] := by
+  have inv := Context.inv_reach n s h
+  have htok : s.tok = some t := (inv.tokI t).mpr (by simp [hpc, Context.PC.hasTok])
+  have key : ∀ u, (s.pcs u).wOwn = true ∨ (s.pcs u).rOwn = true → u = t := by
+    intro u hu
+    have : (s.pcs u).hasTok = true := by
+      generalize s.pcs u = pc at hu
+      cases pc <;> simp_all [Context.PC.hasTok, Context.PC.wOwn, Context.PC.rOwn]
+    have := (inv.tokI u).mpr this
+    rw [htok] at this; exact (Option.some.inj this).symm
+  constructor
+  · cases hw : s.w with
+    | none => rfl
+    | some u =>
+      have hu := (inv.wI u).mp hw
+      have := key u (Or.inl hu); subst this
+      simp [hpc, Context.PC.wOwn] at hu
+  · cases hr : s.rs with
+    | nil => rfl
+    | cons u rest =>
+      have hu := (inv.rI u).mp (by simp [hr])
+      have := key u (Or.inr hu); subst this
+      simp [hpc, Context.PC.rOwn] at hu
 
 /-- A waiter whose context ends stops waiting: whatever the state of the token, the `ctx.Done()`
 case of its `select` is enabled and leads to the error return, after which it is idle. -/
